@@ -8,6 +8,7 @@ tie to code : Generated/C01.lean (MODEL_GROUPS tuple, constructor wiring) + diff
 
 from __future__ import annotations
 
+import copy
 import itertools
 import json
 import sys
@@ -74,6 +75,32 @@ def gen_case(rng, groups_subset=None, force_enabled=None):
             if rng.random() < 0.15:
                 toggles.append([g, i, m["name"], not m["enabled"], rng.choice(["attr", "override"])])
     case["toggles"] = toggles
+    # the same model NAME in two different groups (legal): keys must address the model of THEIR group
+    populated2 = [(g, ms) for g, ms in groups if ms]
+    if len(populated2) >= 2 and rng.random() < 0.35:
+        (ga, msa), (gb, msb) = rng.sample(populated2, 2)
+        msb[rng.randrange(len(msb))]["name"] = msa[rng.randrange(len(msa))]["name"]
+        seen = set()
+        for m in msb:  # keep names unique inside the group
+            while m["name"] in seen:
+                m["name"] += "y"
+            seen.add(m["name"])
+        for t in toggles:  # toggles recorded before the renaming carry the old name
+            if t[0] == gb:
+                t[2] = msb[t[1]]["name"]
+        # make sure a key-based change lands on one of the two
+        for i, m in enumerate(msb):
+            if any(m["name"] == ma["name"] for ma in msa) and not any(t[0] == gb and t[1] == i for t in toggles):
+                toggles.append([gb, i, m["name"], not m["enabled"], "override"])
+        case["toggles"] = toggles
+    # history: a copy-based run (observation) changes ONE ENTRY of a dict-valued argument by key, then the configured
+    # pipeline objects are run again — they must still carry exactly the configured arguments
+    case["pre_sweep"] = None
+    if case["mode"] == "exposure" and case["construction"] == "python" and populated2 and rng.random() < 0.25:
+        g, ms = rng.choice(populated2)
+        i = rng.randrange(len(ms))
+        ms[i]["args"]["opts"] = {"level": 1, "kind": "flat"}
+        case["pre_sweep"] = [g, i, ms[i]["name"], "opts", "level", [10, 20, 30]]
     # YAML anchors/aliases: ONE model entry object used in two groups (`- &m {...}` … `- *m`)
     case["aliases"] = []
     populated = [(g, ms) for g, ms in groups if ms]
@@ -111,7 +138,9 @@ def pipeline_dict(case):
         else:
             d[g] = []
             for i, m in enumerate(ms):
-                o = {"name": m["name"], "func": "probes.trace", "enabled": m["enabled"], "arguments": dict(m["args"])}
+                # deep copy: the objects handed to pyxel must share NOTHING with the case description
+                # (a defect that mutates a nested argument value would otherwise rewrite the expectation too)
+                o = {"name": m["name"], "func": "probes.trace", "enabled": m["enabled"], "arguments": copy.deepcopy(m["args"])}
                 objs[(g, i)] = o
                 d[g].append(o)
     for g, i, g2 in case.get("aliases", []):
@@ -179,6 +208,16 @@ def run_impl(case):
             else:
                 overrides[f"pipeline.{g}.{name}.enabled"] = new
         okw = {"override_dct": overrides} if overrides else {}
+        if case.get("pre_sweep"):
+            from pyxel.observation import Observation, ParameterValues
+
+            g, i, name, arg, entry, values = case["pre_sweep"]
+            pre = Observation(parameters=[ParameterValues(key=f"pipeline.{g}.{name}.arguments.{arg}.{entry}", values=values)], readout=mode.readout)
+            try:
+                pyx.run(pre, det, pipe, with_inherited_coords=True)
+            except Exception:  # noqa: BLE001  (a disabled model cannot be swept: the history then has no first act)
+                pass
+            probes.reset()
         if mode_kind == "exposure":
             res = pyx.run(mode, det, pipe, debug=case["debug"], **okw)
         elif mode_kind in ("observation-seq", "observation-dask"):
@@ -351,7 +390,7 @@ def body(ck: common.Check):
         c["groups"] = [x for x in c["groups"]]
         c["steps"], c["debug"], c["mode"], c["construction"] = 1, False, "exposure", rng.choice(["python", "yaml"])
         c["toggles"] = []
-        c["aliases"], c["fail"] = [], None
+        c["aliases"], c["fail"], c["pre_sweep"] = [], None, None
         for _g, _ms in c["groups"]:
             for _m in (_ms or []):
                 _m["args"].pop("_raise_step", None), _m["args"].pop("_raise_cls", None)
@@ -388,6 +427,9 @@ def body(ck: common.Check):
             impl_trace = [[c[0], c[3], c[4]] for c in impl_trace]
         ck.count("yaml_alias", len(case.get("aliases", [])))
         ck.count("planned_failure", 1 if case.get("fail") else 0)
+        ck.count("pre_sweep_history", 1 if case.get("pre_sweep") else 0)
+        names = [m["name"] for g, ms in case["groups"] for m in (ms or [])]
+        ck.count("same_name_in_two_groups", 1 if len(names) != len(set(names)) else 0)
         if impl_trace is not None and impl_trace != model_trace:
             ck.disagreement(stream, case, impl_trace, model_trace)
         if "segments" in impl:
